@@ -150,6 +150,7 @@ def build_c(q):
     for k in ob.get('keep', []): cmd += ['--root', k]
     for k in ob.get('allow_external', []): cmd += ['--define-external', k]
     for k in ob.get('assert_external', []): cmd += ['--assert-external', k]
+    if ob.get('byte_copy') == 'loop': cmd += ['--byte-copy-loops']
     r = run(cmd, cwd=wd, timeout=600)
     if r['rc'] != 0:
         raise ToolError('ir2c: ' + r['err'][-1500:])
